@@ -26,6 +26,8 @@ func init() {
 			{ID: "C12.R7", Floor: 3, Doc: "encBigInt2C boundary handling: sign byte for positives, redundant 0xff for negatives", Run: c12r7},
 			{ID: "C12.R8", Floor: 1, Doc: "varint trimming keeps the sign byte when it is needed (=C02.R8)", Run: c02r8},
 			{ID: "C12.R9", Floor: 10, Doc: "collection / tuple / UDT writers emit length -1 exactly for a nil encoding (=C02.R4)", Run: c02r4},
+			{ID: "C12.R10", Floor: 1, Doc: "the sign extension of a short varint subtracts exactly 2^(8*len) (=C02.R9)", Run: signExtendAmount},
+			{ID: "C12.R11", Floor: 4, Doc: "element loops of the tuple / UDT decoders consume every element they pass over", Run: c12r11},
 			{ID: "C12.R6", Floor: 6, Doc: "vint coding agrees with the specification on its finite domains", Run: c12r6},
 		},
 	})
@@ -1414,18 +1416,34 @@ func (ev *evalEnv) eval(e ast.Expr) (int64, bool) {
 
 func c12r6(p *Program, r *Report) {
 	// zig-zag formulas
-	if fi := r.NeedFunc("encIntZigZag"); fi != nil {
-		s := strings.ReplaceAll(exprStr(fi.Decl.Body.List[0].(*ast.ReturnStmt).Results[0]), " ", "")
-		r.Check(s == "uint64((n>>63)^(n<<1))" || s == "uint64((n<<1)^(n>>63))", fi.Decl, "encIntZigZag is (n >> 63) ^ (n << 1) with an arithmetic shift", s, "zig-zag encoding is not (n>>63)^(n<<1) on a signed n: "+s)
-		if len(fi.Decl.Type.Params.List) == 1 {
-			t := fi.Pkg.TypesInfo.TypeOf(fi.Decl.Type.Params.List[0].Type)
-			r.Check(t != nil && t.String() == "int64", fi.Decl, "encIntZigZag operates on int64 (arithmetic >>)", fmt.Sprint(t), "the zig-zag input is not a signed 64-bit integer, so n>>63 is not the sign mask")
+	// zig-zag formulas, as terms of the abstract interpreter (any spelling, through locals or helpers):
+	//   enc(n) = (n >>arith 63) ^ (n << 1)        dec(u) = (u >>logical 1) ^ -(u & 1)
+	zz := func(name string, ref func(n *term) *term, what, bad string) {
+		fi := r.NeedFunc(name)
+		if fi == nil {
+			return
 		}
+		se := newSymEval(p)
+		var pt types.Type
+		if fi.Decl.Type.Params != nil && len(fi.Decl.Type.Params.List) == 1 {
+			pt = fi.Pkg.TypesInfo.TypeOf(fi.Decl.Type.Params.List[0].Type)
+		}
+		if pt == nil {
+			r.Unresolved("%s does not take exactly one parameter", name)
+			return
+		}
+		vals, ok := se.evalFunc(fi, []sval{{kind: 'i', t: tSym("n"), typ: pt}})
+		if !ok || len(se.unsup) > 0 || len(vals) != 1 || vals[0].kind != 'i' {
+			r.Unresolved("%s: not interpretable (%s)", name, strings.Join(se.unsup, "; "))
+			return
+		}
+		want := ref(tSym("n"))
+		r.Check(vals[0].t.String() == want.String(), fi.Decl, what, vals[0].t.String(), bad+": computes "+vals[0].t.String()+", the specification's zig-zag is "+want.String())
 	}
-	if fi := r.NeedFunc("decIntZigZag"); fi != nil {
-		s := strings.ReplaceAll(exprStr(fi.Decl.Body.List[0].(*ast.ReturnStmt).Results[0]), " ", "")
-		r.Check(s == "int64((n>>1)^-(n&1))", fi.Decl, "decIntZigZag is (n >> 1) ^ -(n & 1) with a logical shift", s, "zig-zag decoding is not (n>>1)^-(n&1) on an unsigned n: "+s)
-	}
+	zz("encIntZigZag", func(n *term) *term { return mk("xor", mk("ashr", n, tConst(63)), mk("shl", n, tConst(1))) },
+		"encIntZigZag is (n >> 63) ^ (n << 1) with an arithmetic shift", "zig-zag encoding is not (n>>63)^(n<<1) on a signed n")
+	zz("decIntZigZag", func(n *term) *term { return mk("xor", mk("lshr", n, tConst(1)), mk("neg", mk("and", n, tConst(1)))) },
+		"decIntZigZag is (n >> 1) ^ -(n & 1) with a logical shift", "zig-zag decoding is not (n>>1)^-(n&1) with a logical (unsigned) shift")
 	// encVint: number of bytes as a function of the bit length of the zig-zag value
 	if fi := r.NeedFunc("encVint"); fi != nil {
 		info := fi.Pkg.TypesInfo
@@ -1913,4 +1931,128 @@ func framedPairs(seq []string, n int, sizeKind string) bool {
 		}
 	}
 	return true
+}
+
+// c12r11: tuple and UDT values are sequences of [bytes] elements. A decoder that walks them must take every element
+// off the input before it goes on to the next one, also when it has no destination for it (a UDT field the struct
+// does not have): otherwise every later element is decoded from the wrong offset. For every loop that calls
+// readBytes(X): each `continue` of that loop, and the end of its body, is reached only after `X = <rest>`.
+func c12r11(p *Program, r *Report) {
+	n := 0
+	p.forEachFunc(false, func(fi *FuncInfo) {
+		if fi.Pkg != p.Root || !strings.HasPrefix(fi.Name, "unmarshal") {
+			return
+		}
+		info := fi.Pkg.TypesInfo
+		var g *Graph
+		ast.Inspect(fi.Decl.Body, func(x ast.Node) bool {
+			var body *ast.BlockStmt
+			switch l := x.(type) {
+			case *ast.RangeStmt:
+				body = l.Body
+			case *ast.ForStmt:
+				body = l.Body
+			default:
+				return true
+			}
+			// a readBytes(X) call directly in this loop (not in a nested loop)
+			var call *ast.CallExpr
+			for _, c := range callsIn(body) {
+				if isCallTo(info, c, "readBytes") && len(c.Args) == 1 {
+					inner := p.enclosing(c, fi.Decl, func(m ast.Node) bool {
+						switch m.(type) {
+						case *ast.ForStmt, *ast.RangeStmt:
+							return true
+						}
+						return false
+					})
+					if inner == x {
+						call = c
+					}
+				}
+			}
+			if call == nil {
+				return true
+			}
+			cursor := exprStr(ast.Unparen(call.Args[0]))
+			rest := resultVarOf(p, call, 1)
+			if rest == "" || rest == "_" {
+				r.Bad(call, fi.Name+" keeps the rest of the input after an element", "the remaining input returned by readBytes is dropped: the next element is read from the same offset")
+				return true
+			}
+			if rest == cursor {
+				// p, X, err = readBytes(X): reading and consuming are one step
+				n++
+				r.OK(call, fi.Name+" loop at "+p.Pos(x)+": readBytes stores the rest back into its own argument", cursor)
+				return true
+			}
+			if g == nil {
+				g = p.GraphOf(fi)
+			}
+			ef := g.Events(func(st Step) []string {
+				if st.Kind != StNode {
+					return nil
+				}
+				if as, ok := st.Node.(*ast.AssignStmt); ok && len(as.Lhs) == len(as.Rhs) {
+					for i, l := range as.Lhs {
+						if exprStr(l) == cursor && exprStr(ast.Unparen(as.Rhs[i])) == rest {
+							return []string{"advance:" + p.Pos(x)}
+						}
+					}
+				}
+				return nil
+			})
+			ev := "advance:" + p.Pos(x)
+			check := func(at ast.Node, what string) {
+				n++
+				s, ok := ef.Sol.Before(at)
+				r.Check(ok && s.Must[ev], at, fi.Name+" loop at "+p.Pos(x)+": "+what+" only after the element was consumed", cursor+" = "+rest+" on every path",
+					"the loop goes on to the next element without having taken the current one off the input ("+cursor+" = "+rest+" not executed on this path): every following element is decoded from the wrong offset")
+			}
+			ast.Inspect(body, func(y ast.Node) bool {
+				if _, isLit := y.(*ast.FuncLit); isLit {
+					return false
+				}
+				br, ok := y.(*ast.BranchStmt)
+				if !ok || br.Tok != token.CONTINUE {
+					return true
+				}
+				inner := p.enclosing(br, fi.Decl, func(m ast.Node) bool {
+					switch m.(type) {
+					case *ast.ForStmt, *ast.RangeStmt:
+						return true
+					}
+					return false
+				})
+				if inner == x {
+					check(br, "`continue`")
+				}
+				return true
+			})
+			// the natural end of the body: the state after its last statement
+			if len(body.List) > 0 {
+				last := body.List[len(body.List)-1]
+				n++
+				okEnd := false
+				if as, isAs := last.(*ast.AssignStmt); isAs && len(as.Lhs) == len(as.Rhs) {
+					for i, l := range as.Lhs {
+						if exprStr(l) == cursor && exprStr(ast.Unparen(as.Rhs[i])) == rest {
+							okEnd = true
+						}
+					}
+				}
+				if !okEnd {
+					if s, ok := ef.Sol.Before(g.FirstNodeIn(last)); ok && s.Must[ev] {
+						okEnd = true
+					}
+				}
+				r.Check(okEnd, last, fi.Name+" loop at "+p.Pos(x)+": the end of the iteration is reached only after the element was consumed", cursor+" = "+rest+" on every path",
+					"an iteration can end without having taken its element off the input: every following element is decoded from the wrong offset")
+			}
+			return true
+		})
+	})
+	if n == 0 {
+		r.Unresolved("no element loop calling readBytes found in the unmarshal functions")
+	}
 }
